@@ -274,8 +274,12 @@ impl<W: AliasableWeight> Distribution<usize> for WeightedAliasIndex<W> {
     fn sample<R: Rng + ?Sized>(&self, rng: &mut R) -> usize {
         let candidate = rng.sample(self.uniform_index);
         if rng.sample(&self.uniform_within_weight_sum) < self.no_alias_odds[candidate as usize] {
+            #[cfg(rand_distr_verif)]
+            crate::verif_hooks::probe(81);
             candidate as usize
         } else {
+            #[cfg(rand_distr_verif)]
+            crate::verif_hooks::probe(82);
             self.aliases[candidate as usize] as usize
         }
     }
